@@ -993,7 +993,61 @@ def rule_events(ctx):
     ctx.ob("on() appends the handler to the event's listener list", len(app) == 1, "on() does not append", on.loc())
 
 
+def rule_config(ctx):
+    """"at most max_retries+1 attempts ... waits no longer than the configured maximum": the configured numbers must be the ones the transport
+    object gets.  `_create_transport` is evaluated (sa.core.tiny; URL parsing answered by the model) with each retry setting given as 0, given as a
+    non-zero number and not given: what the _Transport constructor receives is exactly what was given -- 0 included (`max_retries: 0` means "one
+    attempt", not "the default")."""
+    from ..core.tiny import Tiny, Sym
+    ctx.rule("C14.7-retry-settings-reach-the-transport")
+    m = ctx.program.module(COMPONENT.rsplit(".", 1)[0])
+    fn = m.funcs.get("_create_transport")
+    ctx.require(fn is not None, "_create_transport not found")
+    ctx.analysed(fn)
+    tinit = ctx.program.func(f"{TRANSPORT}.__init__")
+    keys = [a.arg for a in tinit.node.args.args + tinit.node.args.kwonlyargs if "retr" in a.arg]
+    ctx.require(len(keys) >= 5, f"retry parameters of _Transport not found: {keys}")
+    body = [x for x in fn.node.body if not (isinstance(x, ast.Expr) and isinstance(x.value, ast.Constant))]
+    probs, n = [], 0
+    try:
+        for k in keys:
+            for label, given, v in (("given as 0", True, 0), ("given as 2.5", True, 2.5), ("not given", False, None)):
+                made = []
+
+                def default(f_, a_, k_=None):
+                    if f_ == "_Transport":
+                        made.append(dict(k_ or {}))
+                        return Sym("transport-object")
+                    if f_ == "parse_ws_url":
+                        return [False, "example.com", 8080, "/ws", "/ws", {}]
+                    if f_ == "isinstance":
+                        return True
+                    return Sym(f"<{f_}>")
+                cfg = {"type": "websocket", "url": "ws://example.com:8080/ws"}
+                if given:
+                    cfg[k] = v
+                prm = fn.params()
+                env = {prm[0]: 0, prm[1]: cfg}
+                for p_ in prm[2:]:
+                    env[p_] = None
+                t = Tiny(env, default_call=default, model_types=True, model_strings=True, opaque_globals=True)
+                r = t.run(body)
+                n += 1
+                cell = f"{k} {label}"
+                if r[0] != "return" or len(made) != 1:
+                    probs.append(f"{cell}: {r[0]} {str(r[1])[:40]}, {len(made)} transport object(s) built")
+                elif given and not (k in made[0] and made[0][k] == v and type(made[0][k]) is type(v)):
+                    probs.append(f"{cell}: the transport object gets {k}={made[0].get(k, '<nothing: the default applies>')!r}")
+                elif not given and k in made[0]:
+                    probs.append(f"{cell}: the transport object gets {k}={made[0][k]!r}")
+    except AnalysisError as e:
+        raise AnalysisError(f"[C14.7-retry-settings-reach-the-transport] _create_transport outside the modelled subset: {e}")
+    ctx.ob(f"_create_transport hands every configured retry setting to the transport object as given (0 included), and nothing that was not given [{n} cells]",
+           not probs, "; ".join(probs[:2]), fn.loc())
+
+
 def run(ctx):
+    rule_config(ctx)
     ctx._cg = CallGraph(ctx.program)
     rule_budget(ctx)
     rule_ownership(ctx)
